@@ -197,7 +197,7 @@ static int worker_main(int argc, char **argv) {
     std::map<std::string,uint64_t> faults, counts, strategies;
     std::vector<js::Value> samples; js::Value smallest; long smallest_size = -1; js::Value most_faults; uint64_t most_faults_n = 0;
     int rc = 0;
-    double last_summary = t0;
+    double last_summary = t0, slowest = 0; long long slowest_idx = -1;
 
     auto emit_summary = [&]() {
         js::Value s = js::Value::object();
@@ -211,7 +211,7 @@ static int worker_main(int argc, char **argv) {
         if (smallest_size >= 0) sa.push(smallest);
         if (most_faults_n) sa.push(most_faults);
         s.set("samples", sa);
-        s.set("wall_s", wall_now() - t0);
+        s.set("wall_s", wall_now() - t0); s.set("slowest_run_s", slowest); s.set("slowest_run", slowest_idx);
         printf("S %s\n", s.str().c_str()); fflush(stdout);
     };
 
@@ -223,7 +223,10 @@ static int worker_main(int argc, char **argv) {
         Plan plan = generate(seed, (uint64_t)idx, thorough);
         plan.seed = seed; plan.run = (uint64_t)idx;
         if (print_plan) { printf("P %s\n", plan.to_json().str().c_str()); fflush(stdout); }
+        double t_run = wall_now();
         Result r = execute_clean(plan);
+        t_run = wall_now() - t_run;
+        if (t_run > slowest) { slowest = t_run; slowest_idx = idx; }
         ++evals; ticks += r.ticks; micro += r.micro; switches += r.switches; worlds += r.worlds;
         add_map(faults, r.faults); add_map(counts, r.counts);
         strategies[sim::strategy_name(plan.sched.strategy)]++;
